@@ -7,6 +7,7 @@ import (
 	"sort"
 
 	"github.com/mit-pdos/go-journal/vrt"
+	"github.com/mit-pdos/go-nfsd/fstxn"
 	"verif/crash"
 	"verif/explore"
 	"verif/fsck"
@@ -41,6 +42,7 @@ type crashArg struct {
 	ReadBack   bool       `json:"read_back,omitempty"`  // C07: data of every write is readable immediately
 	Tag        string     `json:"tag,omitempty"`        // prefix of every signature of this history (named histories)
 	ImplFail   bool       `json:"impl_fail,omitempty"`  // the history contains a request that the implementation alone refuses (too big for the journal): it then counts as not performed
+	ICacheSz   uint64     `json:"icachesz,omitempty"`   // size of the server's inode cache for the whole job (default: the scaled 100): 2 makes every request on another object evict
 }
 
 type crashRes struct {
@@ -80,6 +82,11 @@ func crashJob(raw json.RawMessage) (interface{}, error) {
 	}
 	vrt.MapDescending = a.MapDesc
 	defer func() { vrt.MapDescending = false }()
+	if a.ICacheSz != 0 {
+		savedIC := fstxn.ICACHESZ
+		fstxn.ICACHESZ = a.ICacheSz
+		defer func() { fstxn.ICACHESZ = savedIC }()
+	}
 	// 1. set-up runs to a clean image (not part of the crash trace)
 	var img0 *vdisk.Image
 	var vars0 *fsx.Vars
